@@ -124,6 +124,14 @@ func makeRemoteSource(sourceType string, u *url.URL, subPath string) (RemoteSour
 	if u.User != nil {
 		return RemoteSource{}, fmt.Errorf("must not use username or password in URL portion")
 	}
+	// A URL value put together by hand can also carry fields that printing
+	// ignores (ForceQuery beside a query, OmitHost beside a host, a path
+	// without its leading slash): what the address is, is what it prints as.
+	canon, err := url.Parse(u.String())
+	if err != nil {
+		return RemoteSource{}, fmt.Errorf("invalid URL: %w", err)
+	}
+	*u = *canon
 	if u.RawPath != "" && (u.RawPath != u.EscapedPath() || u.RawPath == (&url.URL{Path: u.Path}).EscapedPath()) {
 		u.RawPath = ""
 	}
